@@ -23,7 +23,7 @@ MANIFEST = {
              'write/reopen round trips; kernel level: _loaded/_last_accessed/store read calls after every step, Bus._store_reader with a stub.'),
     'note': ('partial. Outside the theorem domain (and refuted by witness in Refuted/C17.v, listed as known findings): Bus.get / iter_element '
              'placeholders, sort_values with max_persist < len, config[labels] on the max_persist==1 bulk path, LRU key left behind by a failed '
-             'read once the file is restored. sort_values is in the domain only for max_persist=None. Observed, not proved: the byte codecs '
+             'read once the file is restored. sort_values is in the domain only when max_persist is None or >= len(bus). Observed, not proved: the byte codecs '
              '(csv/tsv/pickle/sqlite are oracles; their fidelity is sampled by the round-trip stratum), Series/Index key resolution (modelled in '
              'resolve, tied by the correspondence), mtime granularity (the harness forces distinct integral mtimes with os.utime), the window '
              'between the coherence check and the lazy read. Optional formats (xlsx, hdf5, parquet) are absent here and not exercised.'),
@@ -1125,9 +1125,9 @@ def random_cases(ctx, work, kernel):
             ops, trace = run_history(env, mp, None, kernel=kernel, online=RandomHistory(rng, env, mp, length, ctx.count))
             ctx.count(f'{kind}:{fmt}', f'{kind}:mp={"None" if mp is None else ("n+" if mp >= n else mp)}',
                       f'{kind}:config={"map" if env.mapped else "one"}')
-            # the theorem's domain: sort_values only for max_persist=None; one StoreConfig for all labels or max_persist != 1
-            in_dom = ((mp is None or not any(o[0] == 'sort_values' for o in ops))
-                      and not (env.mapped and mp == 1 and not source_flags()['reader_cfg_by_label']))
+            # the theorem's domain: one StoreConfig for all labels or max_persist != 1 (sort_values is only generated when
+            # max_persist is None or >= len(bus), get/iter_element only when everything is loaded: all inside s_dom)
+            in_dom = not (env.mapped and mp == 1 and not source_flags()['reader_cfg_by_label'])
             ctx.count(f'{kind}:in-theorem-domain={in_dom}')
             yield history_case(kind, env, mp, ops, trace, kernel=kernel, in_domain=in_dom,
                                tags={'stratum': 'kernel' if kernel else 'random', 'format': fmt, 'mp': mp})
@@ -1182,7 +1182,8 @@ def malformed_key(rng, cur):
         p = rng.randrange(n)
         return 'iloc', ('list', [p, rng.choice([p, p - n])])
     if k == 'mask_len':
-        return rng.choice(['loc', 'iloc']), ('mask', [True] * (n + rng.choice([-1, 1])))
+        # never an EMPTY mask: NumPy accepts a size-0 Boolean index on an axis of length 1 (a NumPy quirk, not static-frame)
+        return rng.choice(['loc', 'iloc']), ('mask', [True] * (n + (1 if n <= 1 else rng.choice([-1, 1]))))
     if k == 'label_absent':
         return rng.choice(['getitem', 'loc']), ('label', UNKNOWN_LABEL)
     if k == 'labels_absent':
